@@ -377,20 +377,65 @@ func (l *locator) findCaptured() {
 		for _, b := range f.Blocks {
 			for _, in := range b.Instrs {
 				mc, ok := in.(*ssa.MakeClosure)
-				if !ok {
+				if !ok || !closureEscapes(mc) {
+					// a closure that is only called (or deferred) where it is made runs in the activation that owns
+					// the variables it captures: they stay thread-local
 					continue
 				}
 				for _, bd := range mc.Bindings {
-					if a, ok := bd.(*ssa.Alloc); ok {
-						if isSyncType(a.Type()) {
-							continue
-						}
-						l.captured[a] = "local " + safeFname(a.Parent()) + "." + a.Comment
+					var a *ssa.Alloc
+					switch x := bd.(type) {
+					case *ssa.Alloc:
+						a = x
+					case *ssa.FreeVar:
+						// a variable of an outer function handed on by the closure in between
+						a = l.freeVarAlloc(x)
 					}
+					if a == nil || isSyncType(a.Type()) {
+						continue
+					}
+					l.captured[a] = "local " + safeFname(a.Parent()) + "." + a.Comment
 				}
 			}
 		}
 	}
+}
+
+// closureEscapes: can the closure value leave the activation that made it?  It cannot when its only uses are
+// being the function called by a plain call or a `defer` in the same function; it does when it is started with
+// `go`, passed as an argument (runWorker, runAsyncTask, a consumer …), stored, sent, returned, bound into another
+// closure or converted.
+func closureEscapes(mc *ssa.MakeClosure) bool {
+	refs := mc.Referrers()
+	if refs == nil {
+		return false
+	}
+	for _, r := range *refs {
+		switch x := r.(type) {
+		case *ssa.DebugRef:
+		case *ssa.Call:
+			if x.Call.Value != ssa.Value(mc) {
+				return true
+			}
+			for _, a := range x.Call.Args {
+				if a == ssa.Value(mc) {
+					return true
+				}
+			}
+		case *ssa.Defer:
+			if x.Call.Value != ssa.Value(mc) {
+				return true
+			}
+			for _, a := range x.Call.Args {
+				if a == ssa.Value(mc) {
+					return true
+				}
+			}
+		default:
+			return true
+		}
+	}
+	return false
 }
 
 // findFieldPts: addresses of cells stored into pointer-typed cells (one level).
